@@ -33,6 +33,10 @@ META = {
 }
 
 CONTROL = 1
+LOCAL_DC = 'dc1'
+# real location-keyed policies attached next to the recording one: (profile name, remote hosts used?, token aware?)
+DC_POLICIES = [('dcaware', True, False), ('dcaware-local-only', False, False), ('tokenaware-dcaware', True, True)]
+REMOTE_USED = 8      # used_hosts_per_remote_dc of the policies that use remote hosts: more than the hosts that exist
 PROBES = [b'a', b'b', b'c', b'd', b'e', b'f', b'g', b'h']
 # a kind 'x&y' applies both changes to the row.  no_host_id / no_dc / no_rack alone keep their (non-empty) tokens
 ROW_KINDS = ['valid', 'dc2', 'r2', 'tokB', 'port2', 'no_addr', 'no_host_id', 'no_dc', 'no_rack', 'null_tokens', 'empty_tokens',
@@ -127,7 +131,7 @@ def peer_row(desc, v2):
 class St(object):
     def __init__(self, params):
         from cassandra.cluster import ExecutionProfile, EXEC_PROFILE_DEFAULT
-        from cassandra.policies import RoundRobinPolicy, HostStateListener
+        from cassandra.policies import RoundRobinPolicy, HostStateListener, DCAwareRoundRobinPolicy, TokenAwarePolicy
         from cassandra.metadata import KeyspaceMetadata
         self.p = params
         self.v2 = params['v2']
@@ -176,9 +180,16 @@ class St(object):
         self.w.__enter__()
         try:
             self.lbp = RecLBP()
+            self.dc_policies = {}
+            profiles = {EXEC_PROFILE_DEFAULT: ExecutionProfile(load_balancing_policy=self.lbp)}
+            for name, remote_used, token_aware in DC_POLICIES:
+                pol = DCAwareRoundRobinPolicy(local_dc=LOCAL_DC, used_hosts_per_remote_dc=REMOTE_USED if remote_used else 0)
+                if token_aware:
+                    pol = TokenAwarePolicy(pol)
+                self.dc_policies[name] = pol
+                profiles[name] = ExecutionProfile(load_balancing_policy=pol)
             self.cluster = self.w.make_cluster(
-                contact_points=[addr(CONTROL)], token_metadata_enabled=self.need_tokens,
-                execution_profiles={EXEC_PROFILE_DEFAULT: ExecutionProfile(load_balancing_policy=self.lbp)})
+                contact_points=[addr(CONTROL)], token_metadata_enabled=self.need_tokens, execution_profiles=profiles)
             self.cluster.register_listener(RecListener())
             self.session = self.cluster.connect(wait_for_all_pools=True)
             self.w.settle()
@@ -282,7 +293,11 @@ class H(explore.Harness):
         ref = tuple(nsort((a, r['dc'], r['rack'], tuple(sorted(r['tokens'] or ()))) for a, r in st.ref.items()))
         pools = tuple(nsort(hkey(h) for h in st.session._pools))
         live = tuple(nsort(hkey(h) for h in st.lbp._live_hosts))
-        return (hosts, tuple(nsort(own.items())) if own is not None else None, ref, pools, live,
+        # what the location-keyed policies believe: hosts planned (as a multiset) and their distances
+        views = tuple((name, tuple(nsort(hkey(h) for h in st.dc_policies[name].make_query_plan())),
+                       tuple(nsort((a, st.dc_policies[name].distance(h)) for a, h in self._hosts(st).items())))
+                      for name, _, _ in DC_POLICIES)
+        return (hosts, tuple(nsort(own.items())) if own is not None else None, ref, pools, live, views,
                 st.cluster.control_connection._uses_peers_v2)
 
     def check(self, st, part, hist):
@@ -344,12 +359,19 @@ class H(explore.Harness):
             new, old = (ref[a]['dc'], ref[a]['rack']), (prev[a]['dc'], prev[a]['rack'])
             if new == old or ref[a].get('ambiguous'):
                 continue
+            what = '+'.join(w for w, i in (('dc', 0), ('rack', 1)) if new[i] != old[i])
+            part.count('location_changes_of_known_hosts/%s/%s/refresh-%d' % ('control-node' if a == ep(CONTROL) else 'peer', what, len(hist)))
             evs = [(op, dc, rack) for op, x, dc, rack in st.lbp_events if x == a]
             downs = [i for i, e in enumerate(evs) if e[0] in ('down', 'remove')]
             ups = [i for i, e in enumerate(evs) if e[0] in ('up', 'add') and (e[1], e[2]) == new]
             if not downs or not ups or min(downs) > max(ups):
                 part.violation('C42/lbp/location-change-not-delivered/%s' % cls(a),
                                'host %s moved %r -> %r but the policy saw %r %s' % (a, old, new, evs, ctxt), data)
+            elif not prev[a].get('ambiguous') and not any((evs[i][1], evs[i][2]) == old and i < max(ups) for i in downs):
+                # a policy that files hosts by location can only take the host out of its old place if the host still shows it
+                part.violation('C42/lbp/host-relocated-before-on_down/%s/%s' % (what, cls(a)),
+                               'host %s moved %r -> %r: the policy was never told on_down while the host still showed its old location, it saw %r %s'
+                               % (a, old, new, evs, ctxt), data)
         # token map
         if st.need_tokens:
             own = self._owners(st)
@@ -369,8 +391,56 @@ class H(explore.Harness):
                         part.violation('C42/token-map/get_replicas/changed=%s' % chg,
                                        'get_replicas(ks rf=1, %r) = %r, ring of the last snapshot says %r %s' % (key, got, exp, ctxt), data)
                         break
+        self._judge_dc_policies(st, part, hosts, ctxt, data)
         if any(k != 'valid' for _, k in rows) or lk != 'base':
             part.mark_nontrivial(repr((self.canon(st), lk, rows)))
+
+
+    def _judge_dc_policies(self, st, part, hosts, ctxt, data):
+        """real DCAwareRoundRobinPolicy instances (one under TokenAwarePolicy) that were attached before the first refresh:
+        after every refresh their query plans and distances must describe the hosts of the last snapshot"""
+        from cassandra.policies import HostDistance
+        from cassandra.query import SimpleStatement
+        from vt.core import HarnessError
+        ref = st.ref
+        names = {HostDistance.LOCAL: 'LOCAL', HostDistance.REMOTE: 'REMOTE', HostDistance.IGNORED: 'IGNORED'}
+        if set(hosts) != set(ref):
+            return          # reported above; the policies cannot be right about hosts the metadata is wrong about
+        not_up = [a for a, h in hosts.items() if not h.is_up]
+        if not_up:
+            raise HarnessError('hosts %r are not marked up although every address accepts connections' % (not_up,))
+        moved = sorted(a for a in set(ref) & set(st.prev_ref) if ref[a]['dc'] != st.prev_ref[a]['dc'])
+        how = 'after-dc-change' if moved else 'no-dc-change'
+        token_map_ok = st.need_tokens and self._owners(st) == nodelist.owners(ref)
+        for name, remote_used, token_aware in DC_POLICIES:
+            pol = st.dc_policies[name]
+            for a in nsort(ref):
+                want = nodelist.expected_distance(ref, a, LOCAL_DC, remote_used)
+                got = names[pol.distance(hosts[a])]
+                part.count('policy_distances_judged')
+                if want is not None and got != want:
+                    part.violation('C42/lbp/%s/distance/%s-instead-of-%s/%s' % (name, got, want, how),
+                                   '%s: distance(%s) is %s, the host is in datacenter %r (local datacenter %r): expected %s %s'
+                                   % (name, a, got, ref[a]['dc'], LOCAL_DC, want, ctxt), data)
+            plans = []
+            if token_aware:
+                for key in PROBES:
+                    first = None
+                    if token_map_ok:
+                        owner = nodelist.primary_owner(ref, partitioners.murmur3_token(key))
+                        if nodelist.expected_distance(ref, owner, LOCAL_DC, remote_used) == 'LOCAL':
+                            first = owner
+                    stmt = SimpleStatement('SELECT v FROM ks.t WHERE k = ?', routing_key=key, keyspace='ks')
+                    plans.append(([hkey(h) for h in pol.make_query_plan('ks', stmt)], first, 'routing key %r' % key))
+            else:
+                for _ in range(len(ref) + 1):        # one more than a full turn of the round robin
+                    plans.append(([hkey(h) for h in pol.make_query_plan()], None, 'no routing key'))
+            for plan, first, label in plans:
+                part.count('policy_plans_judged')
+                for clause, text in nodelist.judge_plan(plan, ref, LOCAL_DC, remote_used, first):
+                    part.violation('C42/lbp/%s/query-plan/%s/%s' % (name, clause, how),
+                                   '%s: query plan %r (%s): %s; hosts of the last snapshot by datacenter: %r; datacenter changed for %r %s'
+                                   % (name, plan, label, text, nsort((a, r['dc']) for a, r in ref.items()), moved, ctxt), data)
 
 
 def configs(ctx):
